@@ -1,5 +1,6 @@
 import Dia.Props.C02
 import Dia.Strict
+import Dia.SpecTop
 /-! # C03 - Decoding is faithful: accepted frames mean what their bytes say. Property theorems only.
 `Spec.encode` (Dia/Spec.lean) is the independent RFC 6733 reading; `applyMask _ (maskList _)` forgets exactly what
 the property allows to be normalised: AVP padding octets (`zero`) and the five reserved AVP flag bits (`flags`). -/
@@ -72,6 +73,42 @@ theorem C03_typed (cfg : Cfg) (dict : Lookup) (bs : Bytes) (m : Msg) (h : decMsg
     TypedList dict m.avps ∧ depthList m.avps ≤ cfg.limit ∧ m.HeaderOk :=
   let ⟨t1, t2, t3, t4⟩ := decMsg_typed cfg dict bs m h
   ⟨t1, t2, ⟨t3, t4⟩⟩
+
+/-! ### the same against the independent reading relation `Spec.Parses` (Dia/SpecParse.lean)
+
+`Parses dict bs s` says, without mentioning the model: `s` is a message the library can represent (known command code
+and application id, valid values, every AVP typed by the dictionary entry of its exact (code, vendor) pair), `bs` has
+exactly the size of `Spec.encode s`, and equals it on every significant octet and bit (`Spec.SMsg.mask`). -/
+
+/-- **soundness**: what the decoder accepts (frame of its declared size, no fixed-size length lie) is what an
+independent RFC 6733 reader extracts from those octets -/
+theorem C03_sound (cfg : Cfg) (dict : Lookup) (bs : Bytes) (m : Msg)
+    (h : decMsg cfg dict bs = .ok m) (hlen : bs.length = m.length) (hnl : NoLieList m.avps) :
+    Parses dict bs m.abs :=
+  decMsg_parses cfg dict bs m h hlen hnl
+
+/-- **completeness**: every well-formed frame whose command code, application id and AVPs are known to the library
+and dictionary, nested within the limit, is accepted - whatever its padding octets and reserved bits contain - and the
+message returned has exactly the content the reader extracts -/
+theorem C03_complete (cfg : Cfg) (dict : Lookup) (bs : Bytes) (s : SMsg) (hp : Parses dict bs s)
+    (hd : depthAvps s.avps ≤ cfg.limit) : ∃ m, decMsg cfg dict bs = .ok m ∧ m.abs = s :=
+  ⟨s.conc, decMsg_of_parses cfg dict bs s hp hd⟩
+
+/-- **uniqueness**: the octets determine the message (so "the message an independent reader extracts" is well defined) -/
+theorem C03_unique (dict : Lookup) (bs : Bytes) (s s' : SMsg) (h : Parses dict bs s) (h' : Parses dict bs s') : s = s' :=
+  parses_unique dict bs s s' h h'
+
+/-- the strict reader the check uses as its run-time oracle returns `s` exactly when the frame parses as `s` -/
+theorem C03_read_correct (dict : Lookup) (bs : Bytes) (s : SMsg) : Spec.read dict bs = some s ↔ Parses dict bs s :=
+  read_correct dict bs s
+
+/-- rejection of inconsistent frames, as a consequence: a frame (of its declared size) that does not parse as anything -
+lying length fields, wrong fixed-size values, unknown address families, malformed UTF-8, group boundaries that do not
+add up - is not accepted by a strict decoder -/
+theorem C03_rejects_unparsable (cfg : Cfg) (dict : Lookup) (hs : ∀ t d, cfg.lenient t d = false) (bs : Bytes)
+    (hno : ∀ s, ¬ Parses dict bs s) (m : Msg) (hlen : bs.length = m.length) : decMsg cfg dict bs ≠ .ok m := by
+  intro h
+  exact hno m.abs (decMsg_parses cfg dict bs m h hlen (decMsg_strict cfg dict hs bs m h))
 
 /-! ### finding F1: the full statement fails for the lenient configuration the code has today -/
 
